@@ -532,8 +532,98 @@ fn set_case<T: Elem + Serialize + for<'d> de::Deserialize<'d>>(c: &mut Ctx, rng:
     }
 }
 
+/// Inputs long enough to exhaust the cautious pre-reservation (> 7168 elements) under lying hints: the
+/// claimed length must not drive the allocation at any point of the call, not only before the first element.
+fn long_input_case(c: &mut Ctx, rng: &mut Rng) {
+    let bh = PlanBH::new(crate::plan::Plan::Mixed, rng.next());
+    crate::plan::set_current(bh.plan, bh.salt);
+    let n = *rng.pick(&[7200usize, 7500, 9000]);
+    let hint = *rng.pick(&[Some(1usize << 22), Some(usize::MAX), Some(usize::MAX / 2), Some(n), None]);
+    let items: Vec<u64> = (0..n as u32).flat_map(|i| [pack(i, 1), pack(i % 1000, 2)]).collect();
+    let fresh: M<P8, P8> = M::with_capacity_and_hasher_in(n, bh, CkAlloc);
+    let fresh_bytes = fresh.allocation_size();
+    drop(fresh);
+    let mut d = Json::obj();
+    d.set("case", Json::s(format!("HashMap<P8,P8> from {} entries, claimed hint {:?}", n, hint)));
+    c.describe(d);
+    c.evaluations += 1;
+    c.sig_parts(&[7, n as u64, hint.map_or(0, |h| (h as u64).min(1 << 40))]);
+    ckalloc::reset_peak();
+    let mut probe = Probe { bytes_at_first: None, max_request_at_first: 0 };
+    let de = De { items, is_map: true, hint, fail_at: None, pos: 0, probe: &mut probe };
+    let r = crate::util::catch_expected(|| {
+        let m: Result<M<P8, P8>, Er> = de::Deserialize::deserialize(de);
+        m
+    });
+    match r {
+        Err(msg) => crate::viol!("deserializing {} entries with claimed hint {:?} panicked: {}", n, hint, msg),
+        Ok(Err(e)) => crate::viol!("deserializing {} entries with claimed hint {:?} failed: {}", n, hint, e),
+        Ok(Ok(m)) => {
+            crate::check!(m.len() == n, "deserialized {} of {} entries", m.len(), n);
+            let cnt = ckalloc::counters();
+            // growth by doubling may overshoot a fresh table by one doubling (2x); 4x is the alarm threshold
+            if m.allocation_size() > 4 * fresh_bytes || cnt.max_request > 4 * fresh_bytes {
+                crate::viol!(
+                    "claimed size hint {:?} over {} real entries: final allocation {} bytes, largest request {} bytes; a fresh with_capacity({}) takes {} bytes",
+                    hint, n, m.allocation_size(), cnt.max_request, n, fresh_bytes
+                );
+            }
+            c.bump("long_inputs_checked");
+        }
+    }
+}
+
+/// One place reused for several deserialize_in_place calls with lying hints: the allocation must not compound.
+fn reused_place_case(c: &mut Ctx, rng: &mut Rng) {
+    let bh = PlanBH::new(crate::plan::Plan::Mixed, rng.next());
+    crate::plan::set_current(bh.plan, bh.salt);
+    let pre = *rng.pick(&[0usize, 100, 5000, 9000]);
+    let mut place: S<P8> = S::with_capacity_and_hasher_in(pre, bh, CkAlloc);
+    for i in 0..(pre as u32).min(6000) {
+        place.insert(P8::make(i, 0));
+    }
+    let mut d = Json::obj();
+    d.set("case", Json::s(format!("HashSet<P8> place pre-sized for {} reused for 8 deserialize_in_place calls with lying hints", pre)));
+    c.describe(d);
+    let bound = loose_bound_set::<P8>(bh).max(place.allocation_size());
+    for round in 0..8 {
+        let n = rng.below(6) as u32;
+        let items: Vec<u64> = (0..n).map(|i| pack(i + 10 * round, 0)).collect();
+        let hint = *rng.pick(&[Some(usize::MAX), Some(1usize << 40), Some(1usize << 20), None]);
+        let cap_before = place.capacity();
+        let a0 = ckalloc::counters().allocs;
+        let mut probe = Probe { bytes_at_first: None, max_request_at_first: 0 };
+        let de = De { items, is_map: false, hint, fail_at: None, pos: 0, probe: &mut probe };
+        c.evaluations += 1;
+        c.sig_parts(&[8, pre as u64, round as u64]);
+        let r: Result<(), Er> = de::Deserialize::deserialize_in_place(de, &mut place);
+        crate::check!(r.is_ok(), "deserialize_in_place round {} failed: {:?}", round, r);
+        crate::check!(place.len() == n as usize, "deserialize_in_place round {}: {} elements, expected {}", round, place.len(), n);
+        let allocs = ckalloc::counters().allocs - a0;
+        if cap_before >= 4096 + n as usize {
+            crate::check!(allocs == 0, "deserialize_in_place into a place of capacity {} allocated {} time(s) for {} elements (claimed hint {:?})", cap_before, allocs, n, hint);
+        }
+        if place.allocation_size() > bound {
+            crate::viol!(
+                "deserialize_in_place round {}: the reused place grew to {} bytes (capacity {} -> {}) under claimed hint {:?}; bound {} bytes",
+                round, place.allocation_size(), cap_before, place.capacity(), hint, bound
+            );
+            return;
+        }
+    }
+    c.bump("reused_places_checked");
+}
+
 pub fn run(c: &mut Ctx) {
-    c.run_scenarios(|c, idx, rng| match crate::util::mix(idx) % 7 {
+    c.run_scenarios(|c, idx, rng| match crate::util::mix(idx) % 9 {
+        7 => {
+            if crate::util::mix(idx) % 5 == 0 && !c.is_miri() {
+                long_input_case(c, rng)
+            } else {
+                reused_place_case(c, rng)
+            }
+        }
+        8 => reused_place_case(c, rng),
         0 => map_case::<T24, T24>(c, rng),
         1 => map_case::<P8, P8>(c, rng),
         2 => map_case::<B1, T24>(c, rng),
